@@ -147,7 +147,8 @@ CLAIMS = {
                  "AUTOSELECT=NO - for every builder state) and media_parse_ok_iff (the text parser ends in the same table), dateRange_finish_ok_iff, "
                  "dateRange_end_on_next, duration_text_rejected / duration_special_rejected (negative, NaN, infinite, too large durations are errors), "
                  "client_attribute_name_rejected, sessionData_finish_ok_iff (DATA-ID and exactly one of VALUE/URI), decryptionKey_finish_ok_iff + "
-                 "decryptionKey_uri_nonempty + method_values + iv_syntax + versions_capacity, streamData_finish_ok_iff, iframe_needs_uri, yes_no_values, "
+                 "decryptionKey_uri_nonempty + method_values + iv_syntax + versions_capacity, streamData_finish_ok_iff, iframe_needs_uri, yes_no_values, mediaType_values / hdcpLevel_values / inStreamId_values + enum_quote_rejected "
+                 "(an enumerated value is accepted only if it is one of the names of the table regenerated from the source: dressed with quotes it is rejected), "
                  "start_needs_time_offset, decryptionKey_builder_ok_iff (METHOD and a non-blank URI, since the fix: 704a4ec; the empty URI the builder used to "
                  "accept was finding K6b). The one builder that does NOT validate (ExtXDateRangeBuilder) is stated as a _partial theorem with a counterexample "
                  "theorem and recorded as known finding K6a (a repair was withdrawn: the crate's own doc example violates the rule). Tie: exhaustive presence/value subsets of every tag as text, inside the enclosing master playlist and through the "
